@@ -61,19 +61,44 @@ def main(ctx, replay=None):
     nstrain = 1 if ctx.tier == "quick" else 6
     keys21 = [(I, J) for I in range(1, 7) for J in range(I, 7)]
 
+    # keys as the package itself hands them out (the solvers' own request lists: built from array indices, i.e. numpy integers)
+    handed = {}
+    for row in rows:
+        try:
+            s0 = S(numpy.array([[0.2, 0.3, 0.5]]), c_(*row["key"]))
+            for k in list(s0.get_modulus_keys()) + list(s0.get_modulus_keys_rotated()):
+                handed.setdefault(canon(*k.standard), k)
+        except Exception:
+            pass                                  # (a failing solver is reported below, where it is exercised)
     for row in sorted(rows, key=lambda r: r["key"]):
         I, J = row["key"]
         d = row["disc"]
         K = c_(I, J)
         sig = {"key": f"{I}{J}"}
         sp = [fld(x, d) for x in row["spectrum"]]
-        for sn in range(nstrain + 1):
+        import logging
+        lg = logging.getLogger("cij")
+        base_level, base_prop = lg.level, lg.propagate
+        for sn in range(nstrain + 2):
+            lg.setLevel(base_level)
+            lg.propagate = base_prop
             # number of volumes: 3 (as many as axes: a transposed strain field has the same shape) for every key, and 1, 2, 4, 6 in turn
             ntv = 3 if sn == 0 else (4, 1, 6, 2)[(I + J + sn) % 4]
             e = draw_fractions(rng, ntv) * rng.uniform(0.5, 3.0)       # positive triples (not normalised)
             if sn == nstrain:
                 e = rng.integers(1, 12, (ntv, 3))                     # ... also given as whole numbers (an integer-typed array)
-            s = S(e, K)
+            Kuse = K
+            if sn == nstrain + 1:
+                # a pseudo-cubic cell: three strains that differ in the sixth digit; the key handed over with numpy integers as fields
+                # (what numpy.argwhere and friends produce; equal to, and hashing like, the key built from Python integers); the
+                # package's logger at DEBUG level (`cij run --debug DEBUG`) - none of which is input
+                e = (1.0 / 3.0) * (1.0 + 2e-6 * rng.uniform(-1.0, 1.0, (ntv, 3)))
+                Kuse = handed.get((I, J), c_(numpy.int64(I), numpy.int64(J)))
+                lg.setLevel(logging.DEBUG)
+                lg.propagate = False
+                if not any(isinstance(h, logging.NullHandler) for h in lg.handlers):
+                    lg.addHandler(logging.NullHandler())
+            s = S(e, Kuse)
             case = {"key": [I, J], "strain": e}
             # -- (1) own-frame requests
             try:
@@ -161,7 +186,7 @@ def main(ctx, replay=None):
                 # the inputs are handed over by assignment: a solver object that is given a second tensor must answer for that one
                 # (every third tensor goes to a fresh object, the others re-use the previous one)
                 if s2 is None or tn % 3 == 0:
-                    s2 = S(e, K)
+                    s2 = S(e, Kuse)
                 s2.modulus = {k: comp[canon(*k.standard)] for k in s2.get_modulus_keys()}
                 s2.modulus_rotated = {k: Crot[:, k.voigt[0] - 1, k.voigt[1] - 1] for k in s2.get_modulus_keys_rotated()}
                 try:
@@ -179,4 +204,6 @@ def main(ctx, replay=None):
                                   f"{comp[(I, J)][:2].tolist()} ({kind})", {**case, "tensor": comp},
                                   {**sig, "clause": "target_exact", "tensor": kind})
                     break
+        lg.setLevel(base_level)
+        lg.propagate = base_prop
         ctx.sample({"key": [I, J], "class": row["class"], "modkeys": row["modkeys"][:3]}, limit=4)
